@@ -517,6 +517,17 @@ class Unit:
     def __deepcopy__(self, memodict=None):
         return self.copy(deep=True)
 
+    def __setstate__(self, state):
+        # default pickling of a class with __slots__: (None, {slot: value})
+        slots = state[1] if isinstance(state, tuple) else state
+        for name, value in slots.items():
+            setattr(self, name, value)
+        # unpickled sympy symbols are equal but not identical to unyt's
+        # dimension singletons, which are compared with ``is``
+        from unyt.unit_registry import _singleton_dimensions
+
+        self.dimensions = _singleton_dimensions(self.dimensions)
+
     #
     # End unit operations
     #
